@@ -80,11 +80,27 @@ func samHdrItem(h string) samItem {
 const samCap = 5000
 
 // samRead: item sequence of ReaderHeader (mode "header") or Reader (mode "records").
+// samScribble: the consumer edits the record it was given (adds a tag, overwrites byte-array values): nothing of that may show in
+// any other record, now or in a later read
+func samScribble(s *sam.SAM) {
+	if s.Tags != nil {
+		for _, v := range s.Tags {
+			if b, ok := v.([]byte); ok {
+				for i := range b {
+					b[i] = 0x5a
+				}
+			}
+		}
+		s.Tags["ZZ"] = 1
+		s.Tags["zy"] = "scribbled"
+	}
+}
+
 func samRead(data []byte, mode string) (items []samItem, panicked bool, capped bool) {
 	items = []samItem{}
 	panicked, _ = catch(func() {
 		if mode == "header" {
-			for sh, err := range sam.ReaderHeader(bytes.NewReader(data)) {
+			for sh, err := range sam.ReaderHeader(deliver(data)) {
 				switch {
 				case err != nil:
 					items = append(items, samErrItem)
@@ -92,6 +108,7 @@ func samRead(data []byte, mode string) (items []samItem, panicked bool, capped b
 					items = append(items, samHdrItem(*sh.H))
 				case sh.S != nil && sh.H == nil:
 					items = append(items, samProject(sh.S))
+					samScribble(sh.S)
 				default:
 					items = append(items, samItem{K: "neither", Text: []int{}, F: [][]int{}, Tags: []samTag{}})
 				}
@@ -101,11 +118,12 @@ func samRead(data []byte, mode string) (items []samItem, panicked bool, capped b
 				}
 			}
 		} else {
-			for s, err := range sam.Reader(bytes.NewReader(data)) {
+			for s, err := range sam.Reader(deliver(data)) {
 				if err != nil {
 					items = append(items, samErrItem)
 				} else {
 					items = append(items, samProject(s))
+					samScribble(s)
 				}
 				if len(items) > samCap {
 					capped = true
@@ -500,12 +518,16 @@ func samDrive(args []string) error {
 			continue
 		}
 		r := newRand(int64(sid) + 3000)
+		readDelivery = []int{0, 0, 1, 0, 2, 3}[sid%6]
 		nh, nr := r.Intn(6), r.Intn(21)
 		if sid%4 == 0 {
 			nr = r.Intn(4)
 		}
 		if sid%8 == 6 {
 			nr = 6 + r.Intn(10)
+		}
+		if sid == 7 {
+			nr = len(samEdgeBytes)
 		}
 		var file []byte
 		want := []samItem{}
@@ -536,6 +558,11 @@ func samDrive(args []string) error {
 		var hs []held // MarshalText results are looked at only after all records were marshalled and written
 		for i := 0; i < nr; i++ {
 			s := samRecord(r)
+			if sid == 7 { // every byte value next to a field separator, in turn (this session has 253 records)
+				v := samEdgeBytes[i%len(samEdgeBytes)]
+				s.Qname, s.Rname, s.Cigar = "q"+string([]byte{v}), string([]byte{v})+"r", string([]byte{v})
+				s.Seq, s.Qual = string([]byte{v, v}), "x"+string([]byte{v})
+			}
 			if long1 && i == nr/2 {
 				s = samLong(r, []int{2500, 33000, 70000}[(sid/8)%3])
 			}
@@ -654,6 +681,17 @@ func samDrive(args []string) error {
 var samJunkInts = []string{"x", "", "-", "+", "1.5", "12a", "--1", "+-1", "1-", "0x10", " 1", "1 ", "1_0", "1e3", "0b1", "\u0663", "\u0661\u0662",
 	"9223372036854775808", "-9223372036854775809", "1,0", "\u22121", "NaN"}
 var samJunkNext int
+
+// every byte value a text field may hold (all but TAB, LF, CR)
+var samEdgeBytes = func() []byte {
+	var out []byte
+	for v := 0; v < 256; v++ {
+		if v != '\t' && v != '\n' && v != '\r' {
+			out = append(out, byte(v))
+		}
+	}
+	return out
+}()
 
 var samCorruptions = []string{"few-fields", "int-flag", "int-pos", "int-mapq", "int-pnext", "int-tlen", "tag-one-colon", "tag-no-colon",
 	"tag-unknown-type", "tag-A-empty", "tag-A-two", "tag-i-text", "tag-H-odd", "tag-H-nonhex", "tag-f-text", "only-blanks"}
